@@ -409,6 +409,22 @@ def transition(
         Tuple[PureSnapshot, List[ActionDefinition]]: The resulting snapshot
         and the actions that would have run.
     """
+    # 🏁 A machine that has completed or failed ignores every later event,
+    #    exactly as a real interpreter does. Forcing the probe back to
+    #    "running" let events move a finished machine out of its final state.
+    if snapshot.status in ("done", "error"):
+        return (
+            PureSnapshot(
+                state_ids=set(snapshot.state_ids),
+                configuration=set(snapshot.configuration),
+                context=copy.deepcopy(snapshot.context),
+                status=snapshot.status,
+                output=copy.deepcopy(snapshot.output),
+                history=copy.deepcopy(getattr(snapshot, "history", None)),
+            ),
+            [],
+        )
+
     probe, recorded = _build_probe(machine, snapshot, None)
     probe.status = "running"
 
